@@ -285,6 +285,9 @@ META = (META[0] + ' SELFMOVE (the compaction loops behind erase / erase_if never
 META = (META[0] + ' FWDMOVE (a forwarding-reference parameter is forwarded, never moved).', META[1])
 
 
+META = (META[0] + ' MEMSHORT (a bytewise memcmp / memcpy / memmove over elements is guarded by the trait that makes bytes and values agree; controls in fixtures/extra10_pos.hpp). FIELDCAST (a value stored into a size member is converted to that member type, not to a fixed narrower type).', META[1])
+
+
 def run(chk, tier):
     db = D.load("checks")
     from ..rules import params as _PR
@@ -303,6 +306,12 @@ def run(chk, tier):
     _X8.gap_shift_area(chk, db, ['_vector/', '_inplace_vector/'])      # GAPSHIFT: append-then-shift inserts shift exactly the old tail
     _X8.swap_symmetry_area(chk, db, ['_vector/', '_inplace_vector/', '_stack/'])      # SWAPSYM: the two arms of a member swap mirror each other
     _X8.positive_controls(chk, D, ('SWAPSYM', 'GAPSHIFT'))
+    from ..rules import extra10 as _X10
+    if _X10.mem_shortcut_area(chk, db, ['_vector/', '_inplace_vector/', '_stack/', '_array/']) < 50:      # MEMSHORT (zero calls expected on the library)
+        chk.analysis_broken('MEMSHORT: fewer than 50 function bodies scanned (floor 50)')
+    if _X10.field_cast_area(chk, db, ['_vector/', '_inplace_vector/']) < 2:      # FIELDCAST
+        chk.analysis_broken('FIELDCAST: fewer than 2 stores into a size member found (floor 2)')
+    _X10.positive_controls(chk, D, ('MEMSHORT', 'FIELDCAST'))
     if _X8.forward_move_area(chk, db, ['_vector/', '_inplace_vector/', '_stack/']) < 1:      # FWDMOVE
         chk.analysis_broken('FWDMOVE: no member with a forwarding-reference parameter found (floor 1)')
     if _X8.self_move_area(chk, db, ['_algorithm/remove', '_algorithm/unique', '_vector/', '_inplace_vector/']) < 2:      # SELFMOVE
